@@ -1,18 +1,19 @@
-(* C08/Proofs.v — witnesses (by computation) for the printer arms that lose or change meaning. *)
+(* C08/Proofs.v — witnesses (by computation): regression witnesses for the repaired printer arms, refutations
+   for the arms that still lose or change meaning. *)
 From Coq Require Import ZArith NArith List Bool Lia.
 From Verif Require Import Fmt.Ast Fmt.Print Fmt.Parse Fmt.Wf Fmt.Roundtrip C08.Model.
 Import ListNotations.
 Open Scope Z_scope.
 
-(* 1.0 : Display "1" -> re-parses as the int 1 *)
+(* repaired (fmt-float): 1.0 is printed as a float token again and round-trips *)
 Definition w_float : expr := EBinary (EIdent 5%N) Add (ELit (LFloat 7%N (Some 1))).
-Lemma float_refuted :
-  wfb w_float = true /\ Known_C08_float_integral w_float /\
-  parse_expr 100 (print_expr w_float) = POk (EBinary (EIdent 5%N) Add (ELit (LInt 1)), []) /\
-  EBinary (EIdent 5%N) Add (ELit (LInt 1)) <> w_float.
-Proof. repeat split; try reflexivity. discriminate. Qed.
+Lemma float_fixed :
+  wfb w_float = true /\ float_integral w_float /\
+  print_expr w_float = [TId 5%N; TOp OPlus; TFloat 7%N (Some 1)] /\
+  parse_expr 100 (print_expr w_float) = POk (w_float, []).
+Proof. repeat split; reflexivity. Qed.
 
-(* x[1: :2] is printed with the single token `::`; since /repo 974c053 the parser accepts it *)
+(* repaired in the parser (974c053): x[1: :2] is printed with the single token `::` and parses *)
 Definition w_cc : expr := ESlice (EIdent 5%N) (Some (ELit (LInt 1))) None (Some (ELit (LInt 2))).
 Lemma colon_colon_roundtrips :
   wfb w_cc = true /\ slice_colon_colon w_cc /\
@@ -20,35 +21,35 @@ Lemma colon_colon_roundtrips :
   parse_expr 100 (print_expr w_cc ++ [TNewline]) = POk (w_cc, [TNewline]).
 Proof. repeat split; reflexivity. Qed.
 
-(* (x) => x is printed `(x: _) => x`, which does not parse; the source spelling does *)
+(* still open (fmt-closure): (x) => x is printed `(x: _) => x`, which does not parse; the source spelling does *)
 Definition w_closure : expr := EClosure [5%N] (EIdent 5%N).
 Lemma closure_refuted :
   parse_expr 100 [TPu PLParen; TId 5%N; TPu PRParen; TPu PFatArrow; TId 5%N] = POk (w_closure, []) /\
   parse_expr 100 (print_expr w_closure) = PErr.
 Proof. split; reflexivity. Qed.
 
-(* Expr::If: the bodies never reach the output, so no parser can recover them *)
+(* still open (fmt-if-expr): the bodies never reach the output, so no parser can recover them *)
 Lemma if_expr_refuted : forall c t1 e1 t2 e2, print_if_expr c t1 e1 = print_if_expr c t2 e2.
 Proof. reflexivity. Qed.
 
-(* format_param never consults is_mut; format_function never consults type_params *)
-Lemma mut_param_refuted : forall n t d, print_param {| p_mut := true; p_name := n; p_ty := t; p_default := d |}
-                                     = print_param {| p_mut := false; p_name := n; p_ty := t; p_default := d |}.
+(* repaired (fmt-mut-param, fmt-type-params, fmt-tuple-type, fmt-unit-type): the arms are injective again on
+   the information they used to drop *)
+Lemma mut_param_fixed : forall n t d, print_param {| p_mut := true; p_name := n; p_ty := t; p_default := d |}
+                                   <> print_param {| p_mut := false; p_name := n; p_ty := t; p_default := d |}.
+Proof. intros n t d H. discriminate H. Qed.
+
+Lemma type_params_fixed : forall n tp tps ps r, print_fn_header n (tp :: tps) ps r <> print_fn_header n [] ps r.
+Proof. intros n tp tps ps r H. cbn in H. inversion H. Qed.
+
+Lemma tuple_type_fixed : forall ts, print_ty (TyTuple ts) <> print_ty (TyGeneric id_Tuple ts) /\
+  print_ty (TyTuple [TySimple 9%N]) = [TPu PLParen; TId 9%N; TPu PComma; TPu PRParen].
+Proof. intros ts; split; [intros H; discriminate H | reflexivity]. Qed.
+
+Lemma unit_type_fixed : print_ty TyUnit = [TPu PLParen; TPu PRParen].
 Proof. reflexivity. Qed.
 
-Lemma type_params_refuted : forall n tps ps r, print_fn_header n tps ps r = print_fn_header n [] ps r.
-Proof. reflexivity. Qed.
-
-(* (int, str) is printed as the generic type Tuple[int, str] *)
-Lemma tuple_type_refuted : forall ts, print_ty (TyTuple ts) = print_ty (TyGeneric id_Tuple ts) /\ TyTuple ts <> TyGeneric id_Tuple ts.
-Proof. intros ts; split; [reflexivity|discriminate]. Qed.
-
-(* the unit type () is printed as the keyword None (which type_expr reads as Type::Simple("None")) *)
-Lemma unit_type_refuted : print_ty TyUnit = [TKw KNone].
-Proof. reflexivity. Qed.
-
-(* `a.b *= 1 + 2`: the parser's desugaring yields an AST that is NOT ladder-well-formed
-   (so parser_output_wf is false at statement level) and whose printed form re-parses differently *)
+(* still open (fmt-compound-desugar): `a.b *= 1 + 2`: the parser's desugaring yields an AST that is NOT
+   ladder-well-formed and whose printed form re-parses differently *)
 Definition toks_compound : list tok := [TId 1%N; TPu PDot; TId 2%N; TOp OStarEq; TInt 1; TOp OPlus; TInt 2].
 Definition s_compound : stmt :=
   SFieldAssign (EIdent 1%N) (FName 2%N)
@@ -62,13 +63,13 @@ Proof.
   eexists. split; [vm_compute; reflexivity|]. discriminate.
 Qed.
 
-(* non-vacuity: a deep well-formed expression using every proved constructor *)
+(* non-vacuity: a deep well-formed expression using every proved constructor, a `::` slice, an integral float *)
 Definition w_big : expr :=
-  EBinary (EUnary Not (EBinary (EIdent 1%N) NotIn (EList [ELit (LInt 1); ELit (LStr 3%N)])))
+  EBinary (EUnary Not (EBinary (EIdent 1%N) NotIn (EList [ELit (LInt 1); ELit (LStr 3%N); ELit (LFloat 8%N (Some 2))])))
     Or (EBinary (ECall (EIdent 2%N) [(None, EParen (EBinary (EIdent 1%N) Add (EIdent 2%N))); (Some 4%N, ETuple [ESelf])])
           Lt (EBinary (EUnary Neg (EMethod (EField (EIdent 1%N) (FIdx 0)) 5%N []))
                 Mul (EBinary (ETry (EIndex (EIdent 1%N) (ERange (ELit (LInt 0)) (EIdent 2%N) true)))
                        Pow (EAwait (ESlice (ESlice (EIdent 3%N) None None (Some (EIdent 2%N))) None (Some (EIdent 1%N)) (Some (ELit (LFloat 9%N None)))))))).
-Lemma big_ok : wfb w_big = true /\ has_intfloat w_big = false /\
+Lemma big_ok : wfb w_big = true /\
   parse_expr (need w_big) (print_expr w_big ++ [TNewline]) = POk (w_big, [TNewline]).
-Proof. vm_compute. repeat split; reflexivity. Qed.
+Proof. vm_compute. split; reflexivity. Qed.
